@@ -57,4 +57,17 @@ Section Sem.
   (* jac in terms of the Jacobian row of expr *)
   Definition dict_jac (s : sense) (row : list R) : list R :=
     match s with Le => map Ropp row | _ => row end.
+
+  (* _build_solver_cache, the loop over problem.constraints: ONE dict per constraint, in the order written
+     (no constraint skipped, merged or re-ordered).  A dict is kept as its type and the constraint it was built from. *)
+  Definition dict_of (c : expr * sense) : ctype * (expr * sense) := (dict_type (snd c), c).
+  Definition scipy_constraints (cs : list (expr * sense)) : list (ctype * (expr * sense)) := map dict_of cs.
+
+  (* what SciPy requires of a point for one dict, and what the user wrote *)
+  Definition dict_accepts (rho : string -> R) (penv : string -> R) (d : ctype * (expr * sense)) : Prop :=
+    let v := evalR rho penv (fst (snd d)) in
+    match fst d with Ineq => 0 <= dict_fun (snd (snd d)) v | EqC => dict_fun (snd (snd d)) v = 0 end.
+  Definition relation_holds (rho : string -> R) (penv : string -> R) (c : expr * sense) : Prop :=
+    let v := evalR rho penv (fst c) in
+    match snd c with Le => v <= 0 | Ge => v >= 0 | Eq => v = 0 end.
 End Sem.
